@@ -19,11 +19,15 @@ Inductive stmt :=
 | SIgnore.                      (* IGNORE_ALL_LEAKS_IN_TEST() *)
 
 Record ltest := mkT {
-  t_before : list stmt;         (* allocations / releases made outside the test, before the plugin's preTestAction
-                                   (another plugin's pre-action, the code between two runs): only SAlloc / SFree *)
-  t_setup : list stmt; t_body : list stmt; t_teardown : list stmt }.
+  t_before : list stmt;         (* allocations / releases made outside the test, before the leak plugin's preTestAction
+                                   (the pre-action of a plugin installed AFTER the leak plugin): only SAlloc / SFree *)
+  t_ipre : list stmt;           (* pre-action of a plugin installed BEFORE the leak plugin (MockSupportPlugin, ...): runs after
+                                   the leak plugin's pre-action; SFail = result.addFailure(...), nothing is left early *)
+  t_setup : list stmt; t_body : list stmt; t_teardown : list stmt;
+  t_ipost : list stmt }.        (* post-action of that plugin: runs before the leak plugin's post-action *)
 
 Record scenario := mkS {
+  s_pre : list stmt;            (* before the plugin exists (the detector is still in period `disabled`): only SAlloc / SFree *)
   s_tests : list ltest;
   s_tail : list stmt;           (* after the last test, before FinalReport: only SAlloc / SFree *)
   s_tbd : N }.                  (* FinalReport(toBeDeletedLeaks) *)
@@ -40,8 +44,8 @@ Record world := mkW {
 
 Definition with_det (w : world) (d : det) := mkW d (w_ignore w) (w_expected w) (w_fc0 w) (w_failures w) (w_err w).
 
-(* MemoryLeakWarningPlugin::MemoryLeakWarningPlugin: flags cleared, memLeakDetector_->enable() *)
-Definition w_init : world := mkW (with_period d_init SEnabled) false 0 0 0 false.
+(* MemoryLeakWarningPlugin::MemoryLeakWarningPlugin on detector d: flags cleared, memLeakDetector_->enable() *)
+Definition w_start (d : det) : world := mkW (with_period d SEnabled) false 0 0 0 false.
 
 (* allocMemory / deallocMemory through p[id]; block id lives at "address" id *)
 Definition mem_stmt (d : det) (s : stmt) : det :=
@@ -61,6 +65,9 @@ Definition exec_stmt (w : world) (s : stmt) : world :=
 (* UtestShell::failWith: result.addFailure, then the terminator leaves the phase *)
 Definition add_failure (w : world) : world :=
   mkW (w_det w) (w_ignore w) (w_expected w) (w_fc0 w) (w_failures w + 1) (w_err w).
+
+(* a statement of a plugin action: a failure is added to the result, the action goes on *)
+Definition step (w : world) (s : stmt) : world := match s with SFail => add_failure w | _ => exec_stmt w s end.
 
 (* PlatformSpecificSetJmp(helperDoTest<Phase>, this): true = the phase ran to its end *)
 Fixpoint run_phase (w : world) (l : list stmt) : world * bool :=
@@ -115,11 +122,12 @@ Record obs := mkO {
   o_empty : bool;               (* FinalReport returned "" *)
   o_noleaks : bool; o_many : bool; o_total : N; o_entries : list entry2 }.
 
-(* UtestShell::runOneTestInCurrentProcess with the plugin chain [other plugin; leak plugin] *)
+(* UtestShell::runOneTestInCurrentProcess with the plugin chain [outer plugin; leak plugin; inner plugin]:
+   runAllPreTestAction goes down the chain, runAllPostTestAction comes back up *)
 Definition run_one (w : world) (t : ltest) : world * titem :=
-  let w0 := with_det w (fold_left mem_stmt (t_before t) (w_det w)) in
+  let w0 := with_det w (fold_left mem_stmt (t_before t) (w_det w)) in           (* outer plugin's pre-action *)
   let w1 := pre_action w0 in
-  let w2 := run_body w1 t in
+  let w2 := fold_left step (t_ipost t) (run_body (fold_left step (t_ipre t) w1) t) in
   let (w3, rep) := post_action w2 in
   (w3, match rep with
        | Some l => mkTI (w_failures w3 - w_failures w0) 1 (is_nil l) false (len l) (map ent l)
@@ -133,7 +141,7 @@ Fixpoint run_tests (w : world) (ts : list ltest) : world * list titem :=
   end.
 
 Definition run (s : scenario) : obs :=
-  let (w, items) := run_tests w_init (s_tests s) in
+  let (w, items) := run_tests (w_start (fold_left mem_stmt (s_pre s) d_init)) (s_tests s) in
   let w' := with_det w (fold_left mem_stmt (s_tail s) (w_det w)) in
   match final_report w' (s_tbd s) with
   | (Some l, e) => mkO e items 0 false (is_nil l) false (len l) (map ent l)
@@ -153,11 +161,13 @@ Fixpoint upto_fail (l : list stmt) : list stmt * bool :=
   | SFail :: _ => ([SFail], true)
   | s :: r => let (e, f) := upto_fail r in (s :: e, f)
   end.
-(* the statements of a test that are executed *)
-Definition executed (t : ltest) : list stmt :=
+(* the statements of setup / body / teardown that are executed *)
+Definition phase_text (t : ltest) : list stmt :=
   let (a, fa) := upto_fail (t_setup t) in
   let b := if fa then [] else fst (upto_fail (t_body t)) in
   a ++ b ++ fst (upto_fail (t_teardown t)).
+(* everything executed between the leak plugin's pre-action and its post-action: "the test" *)
+Definition executed (t : ltest) : list stmt := t_ipre t ++ phase_text t ++ t_ipost t.
 
 Definition own_failures (ex : list stmt) : N := len (filter is_fail ex).
 Definition asked_ignore (ex : list stmt) : bool := existsb is_ignore ex.
@@ -211,10 +221,12 @@ Fixpoint spec_tests (base : N) (ts : list ltest) (os : list titem) : bool :=
 Definition trace (s : scenario) : list stmt :=
   flat_map (fun t => t_before t ++ executed t) (s_tests s) ++ s_tail s.
 
+(* blocks obtained before the plugin existed are not the plugin's business: never charged, never in the final report *)
 Definition spec (s : scenario) (o : obs) : bool :=
-  let out := leaked 1 (trace s) in
+  let b0 := 1 + allocs (s_pre s) in
+  let out := leaked b0 (trace s) in
   negb (o_err o) && (o_stray o =? 0) &&
-  spec_tests 1 (s_tests s) (o_tests o) &&
+  spec_tests b0 (s_tests s) (o_tests o) &&
   Bool.eqb (o_empty o) (len out =? s_tbd s) &&
   (if o_empty o then negb (o_noleaks o) && negb (o_many o) && (o_total o =? 0) && is_nil (o_entries o)
    else check_report out (o_noleaks o) (o_many o) (o_total o) (o_entries o)).
@@ -233,5 +245,5 @@ Fixpoint valid_trace (live : list N) (l : list stmt) : bool :=
 Definition mem_only (l : list stmt) : bool :=
   forallb (fun s => match s with SAlloc _ _ _ | SFree _ => true | _ => false end) l.
 Definition valid (s : scenario) : bool :=
-  forallb (fun t => mem_only (t_before t)) (s_tests s) && mem_only (s_tail s) &&
-  (s_tbd s <? 4294967296) && valid_trace [] (trace s).
+  forallb (fun t => mem_only (t_before t)) (s_tests s) && mem_only (s_tail s) && mem_only (s_pre s) &&
+  (s_tbd s <? 4294967296) && valid_trace [] (s_pre s ++ trace s).
